@@ -286,10 +286,17 @@ Proof.
     pose proof (soft_weight_le wp Hp) as Sp. pose proof (soft_weight_le wn Hn) as Sn.
     pose proof (wt_nonneg wp Hp) as Np. pose proof (wt_nonneg wn Hn) as Nn.
     rewrite Zle_Qle in Np, Nn. change (inject_Z 0) with 0%Q in Np, Nn.
-    assert (A1 : (inject_Z (weight_sum (if is_one wp then [] else [((- wt wp)%Z, [(- a)%Z])])) <= inject_Z (- wt wp)%Z)%Q).
-    { destruct (is_one wp); cbn [weight_sum fold_right fst]; [exact Np|]. rewrite Z.add_0_r. apply Qle_refl. }
-    assert (A2 : (inject_Z (weight_sum (if is_one wn then [] else [((- wt wn)%Z, [a])])) <= inject_Z (- wt wn)%Z)%Q).
-    { destruct (is_one wn); cbn [weight_sum fold_right fst]; [exact Nn|]. rewrite Z.add_0_r. apply Qle_refl. }
+    match goal with
+    | |- (inject_Z (weight_sum ?X) + (inject_Z (weight_sum ?Y) + _) <= _)%Q =>
+        assert (A1 : (inject_Z (weight_sum X) <= inject_Z (- wt wp)%Z)%Q);
+        [ destruct (is_one wp); cbn [weight_sum fold_right fst]; [exact Np|]; rewrite Z.add_0_r; apply Qle_refl |];
+        assert (A2 : (inject_Z (weight_sum Y) <= inject_Z (- wt wn)%Z)%Q);
+        [ destruct (is_one wn); cbn [weight_sum fold_right fst]; [exact Nn|]; rewrite Z.add_0_r; apply Qle_refl |];
+        set (x1 := inject_Z (weight_sum X)) in *; set (x2 := inject_Z (weight_sum Y)) in *
+    end.
+    set (x3 := inject_Z (weight_sum (soft_clauses (a + 1) lw))) in *.
+    set (y1 := inject_Z (- wt wp)) in *. set (y2 := inject_Z (- wt wn)) in *.
+    set (c1 := clampw wp) in *. set (c2 := clampw wn) in *. set (c3 := wsumR lw) in *.
     lra.
 Qed.
 
